@@ -63,12 +63,12 @@ def run_race(ctx):
             report_violation(ctx, "oracle", "the race detector reports a data race (GOMAXPROCS=%d): %s" % (procs, "; ".join(where[:3])), payload, "race-p%d-%d" % (procs, i))
         elif js is None:
             report_violation(ctx, "crash", "harness race did not complete (exit %d)" % rc, payload, "race-crash-p%d-%d" % (procs, i))
-        elif rc != 0 or js.get("partA_mismatches", 0) or js.get("partB_mismatches", 0) or js.get("partC_mismatches", 0):
+        elif rc != 0 or js.get("partA_mismatches", 0) or js.get("partB_mismatches", 0) or js.get("partC_mismatches", 0) or js.get("partD_mismatches", 0):
             payload["report"] = {k: v for k, v in js.items() if k != "nontrivial_hashes"}
             report_violation(ctx, "oracle", "a goroutine observed a result that differs from the sequential execution (GOMAXPROCS=%d): %s"
                              % (procs, js.get("first_mismatch", "")[:400]), payload, "race-mismatch-p%d-%d" % (procs, i))
         if js:
-            ops += js.get("partA_ops", 0) + js.get("partB_ops", 0) + js.get("partC_ops", 0)
+            ops += js.get("partA_ops", 0) + js.get("partB_ops", 0) + js.get("partC_ops", 0) + js.get("partD_ops", 0)
             mism += js.get("partA_mismatches", 0) + js.get("partB_mismatches", 0)
             histories += js.get("partA_histories", 0)
             readers += js.get("partB_readers", 0) * js.get("partB_trees", 0)
@@ -76,7 +76,7 @@ def run_race(ctx):
             nontrivial |= set(js.get("nontrivial_hashes", []))
             samples += js.get("samples", [])[1:4]
             run.update({k: js.get(k) for k in ("partA_goroutines", "partA_histories", "partA_histories_with_wide_nodes", "partA_ops", "partA_mismatches",
-                                               "partB_trees", "partB_readers", "partB_ops", "partB_mismatches", "partB_tree_sizes", "partC_goroutines", "partC_ops", "partC_mismatches", "yields", "panics")})
+                                               "partB_trees", "partB_readers", "partB_ops", "partB_mismatches", "partB_tree_sizes", "partC_goroutines", "partC_ops", "partC_mismatches", "partD_ops", "partD_mismatches", "yields", "panics")})
             run["kinds_partA"] = len(js.get("partA_kinds", []))
         runs.append(run)
         if len(ctx.violations) >= 3:
